@@ -33,7 +33,7 @@ ASSUMPTIONS = [
     "admissible = the structure the call would produce contains every node object at most once, has no cycle, and every node to be (re-)attached has a free id",
     "operations that raise (documented or not) end the history without verdict and are counted; rejected operations are C19's subject",
 ]
-MUST_SEE = ["cross_tree_ancestor_queries", "explicit_ids", "replace_by_equal_value_of_other_type", "replace_depth_ge2", "remove_middle_of_sequence", "op_on_stale", "twins", "ops_ok", "replace_with_node", "replace_with_none", "transform_visitor", "transformer_execute", "attach_detached_subtree", "duplicate", "checks_deep", "twin_sequences", "replacement_is_detached_clone_of_attached_node"]
+MUST_SEE = ["stale_twin_replacements", "cross_tree_ancestor_queries", "explicit_ids", "replace_by_equal_value_of_other_type", "replace_depth_ge2", "remove_middle_of_sequence", "op_on_stale", "twins", "ops_ok", "replace_with_node", "replace_with_none", "transform_visitor", "transformer_execute", "attach_detached_subtree", "duplicate", "checks_deep", "twin_sequences", "replacement_is_detached_clone_of_attached_node"]
 CONFIG = {
     "quick": {"shards": 16, "histories": 100, "ops": 30, "watchdog_s": 600},
     "thorough": {"shards": 32, "histories": 400, "ops": 50, "watchdog_s": 3400},
@@ -547,12 +547,42 @@ class Runner:
                 self.stale.add(id(h))
         return "transformer_execute"
 
+    def op_stale_twin_replacement(self):
+        """a detached node whose cached content went stale (a grandchild was changed while it was out) replaces a node that
+        is content-equal to what it was before: holder and ancestors must come out with the content they now have"""
+        rng, U, P = self.rng, self.U, self.P
+        NO = O.build_origin(("no",))
+        Leaf, Un, Lst = U.cls[f"{P}Leaf"], U.cls[f"{P}Un"], U.cls[f"{P}List"]
+        self.counter = getattr(self, "counter", 0) + 1
+        k = 880000 + self.counter * 10 + rng.randrange(5)
+
+        def chain(v):
+            return Un(child=Un(child=Leaf(v=v, origin=NO), origin=NO), origin=NO)
+
+        equal_occupant = rng.random() < 0.7
+        occupant = chain(k if equal_occupant else k + 3)
+        root = Lst(items=(chain(k + 5), occupant), origin=NO)
+        top = Un(child=root, origin=NO) if rng.random() < 0.5 else None
+        holder = chain(k)
+        mid, lf = holder.child, holder.child.child
+        self.F.add(root, top, holder)
+        holder.detach_self()
+        changed = rng.random() < 0.7
+        if changed:
+            new_leaf = lf.replace(v=k + 1)
+            self.F.add(new_leaf)
+        self.log.append(("stale_twin_replacement", {"occupant_equal_to_holder_before_change": equal_occupant, "changed_below_holder": changed}))
+        occupant.replace_with(holder)
+        self.F.add(holder)
+        self.ctx.count("stale_twin_replacements")
+        return "stale_twin_replacement"
+
     # ------------------------------------------------------------------ driver
     def run(self, nops):
         ctx, rng = self.ctx, self.rng
         ops = [
             (self.op_construct, 5), (self.op_twin_sequence, 2), (self.op_attach, 2), (self.op_detach, 2), (self.op_detach_self, 2), (self.op_replace, 7),
-            (self.op_replace_with, 4), (self.op_duplicate, 2), (self.op_transform_visitor, 2), (self.op_transformer, 1),
+            (self.op_replace_with, 4), (self.op_duplicate, 2), (self.op_transform_visitor, 2), (self.op_transformer, 1), (self.op_stale_twin_replacement, 1),
         ]
         weights = [w for _, w in ops]
         for _ in range(4):
